@@ -380,6 +380,22 @@ func genC05(e *emitter, tier string, seed uint64) {
 			noteVerdict(e, ixExec(e, era|fBip16, append([]byte{0x76}, u...), lock), "p2sh")
 		}
 	}
+	// (d') pay-to-script-hash with degenerate redeem scripts: the empty script (skipped like any zero-length script,
+	//      the verdict is then that of the arguments), single opcodes, with 0..2 arguments of either truth value
+	for _, era := range []int{0, fAfterGenesis} {
+		for _, redeem := range [][]byte{{}, {0x51}, {0x00}, {0x61}, {0x75}, {0x76}, {0x87}, {0x51, 0x51}, {0x6a}, {0x63, 0x68}} {
+			lock := append(append([]byte{0xa9, 0x14}, hash160(redeem)...), 0x87)
+			for _, args := range [][]byte{{}, {0x51}, {0x00}, {0x51, 0x00}, {0x00, 0x51}, {0x51, 0x51}} {
+				u := append(append([]byte{}, args...), minimalPush(redeem)...)
+				if len(redeem) == 0 {
+					u = append(append([]byte{}, args...), 0x00)
+				}
+				for _, fl := range []int{fBip16, fBip16 | fCleanStack, 0} {
+					noteVerdict(e, ixExec(e, era|fl, u, lock), "p2sh-degenerate")
+				}
+			}
+		}
+	}
 	// (f) OP_RETURN and what follows it: a top-level OP_RETURN ends the script (the rest is never decoded), one inside a
 	//     conditional does not; whether it is top-level must not depend on reserved words skipped on the way
 	for _, era := range eras {
